@@ -187,7 +187,7 @@ def armorDecode (input : Text) : Nat × Octets :=
           | some c => c
           | none => epos                                   -- no checksum
         if find "-----".toList s (spos + 33) ≠ some epos then (0, [])   -- nested block
-        else if spos + 24 < rpos ∧ rpos + 2 < cpos then
+        else if spos + 24 < rpos ∧ rpos + 2 ≤ cpos then
           let decoded := radix64Decode (substr s (rpos + 2) (cpos - rpos - 2))
           if cpos + 6 < epos ∧ crc24Encode decoded ≠ substr s (cpos + 1) 5 then (0, [])
           else (k.type, decoded)
